@@ -20,4 +20,20 @@ def observe(sc, add, build, make_point, oracle_outcome, oracle_partial, point, x
                 return 1.0 if (back == e and type(back) is type(e)) else 0.0
             add(f"eval({fn.__name__}(e)) == e   [{fn(e)}]", thunk, ("value", 1.0))
         return
+    if kind in ("reducer", "method_refines"):
+        # C08: the rule / step / pass must return None or an expression that is defined
+        # wherever the input is, with the same value
+        tree = sc["tree"]
+        method = sc["rule"]
+        want = oracle_outcome(tree, point)
+        e = build(tree)
+        out = getattr(e, method)()
+        if out is None:
+            add(f"e.{method}() declined", lambda: 1.0, ("value", 1.0))
+            return
+        if want[0] != "value":
+            add(f"input undefined at the point: nothing required of {out}", lambda: 1.0, ("value", 1.0))
+            return
+        add(f"e.{method}() = {out}; its value at the point vs the input's", lambda: out.at(make_point(point)), want)
+        return
     raise KeyError(f"unknown replay kind {kind}")
